@@ -61,6 +61,10 @@ def build(env, reps):
             s.call("encap", pkr="$kR.pk", sks="$kS.sk", pks="$kX.pk", rng=rng, out="b", cls="auth-mismatched-pair")
             s.call("decap", skr="$kR.sk", enc="$a.enc", pks="$kX.pk", cls="auth-wrong-sender")
             s.call("decap", skr="$kX.sk", enc="$e.enc", cls="plain-wrong-recipient")
+            # the recipient's own public key is a perfectly valid encapsulated key
+            s.call("decap", skr="$kR.sk", enc="$kR.pk", cls="enc-equals-pkR")
+            s.call("decap", skr="$kR.sk", enc="$kR.pk", pks="$kS.pk", cls="enc-equals-pkR")
+            s.call("decap", skr="$kR.sk", enc="$kS.pk", pks="$kS.pk", cls="enc-equals-pkS")
         # --- decap of reference-produced encapsulations
         k = R.KEMS[kem]
         for j in range(reps * 4):
@@ -98,6 +102,30 @@ def build(env, reps):
         for nm, pk in peers_E:
             s.call("encap", pkr=pk, rng=rngE.hex() + "aa" * 8, cls="dh:" + nm)
             s.call("encap", pkr=pk, sks="$kS.sk", pks="$kS.pk", rng=rngE.hex() + "aa" * 8, cls="dh:" + nm)
+    # --- private keys that share long prefixes / suffixes, used back to back (a cache keyed on part of the key)
+    for kem in gen.KEMS:
+        k = R.KEMS[kem]
+        n = gen.nsk(kem)
+        s = cw.session(kem, k.kdf_id, 1, sid="ps%04x" % kem)
+        gen.add_keys(s, g, kem, "kP")
+        s.call("encap", pkr="$kP.pk", rng=g.rbytes(n), out="pe")
+        base = bytearray(g.raw(n))
+        base[0] = 0 if k.curve is not None else base[0]  # stay below the group order
+        sibs = []
+        for cut in (32, 16, n - 1, 1):
+            if cut >= n:
+                continue
+            pre = bytearray(bytes(base[:cut]) + g.raw(n - cut))      # same first `cut` bytes
+            suf = bytearray(g.raw(n - cut) + bytes(base[n - cut:]))  # same last `cut` bytes
+            if k.curve is not None:
+                pre[0] = 0
+                suf[0] = 0
+            sibs += [bytes(pre), bytes(suf)]
+        for sk in [bytes(base)] + sibs + [bytes(base)]:
+            if len(sk) != n:
+                continue
+            s.call("sk_to_pk", sk=sk, cls="sibling")
+            s.call("decap", skr=sk, enc="$pe.enc", cls="sibling")
     return cw
 
 
@@ -147,6 +175,10 @@ def run(env):
     res = env.drive("kem", cw.text())
     env.require_complete(res, "kem")
     mr = env.pmap(monitor, res.sessions, workload="kem")
+    for b in ("fast", "checked-std"):
+        rb = env.drive("kem", cw.text(), build=b)
+        env.require_complete(rb, "kem/" + b)
+        env.pmap(monitor, rb.sessions, workload="kem")
     env.extra_cov["sessions"] = len(res.sessions)
     if mr.counts["retry_path_derivations"] < 3 and not env.violations:
         raise fw.Inconclusive("the P-256 retry path was not observed (%d)" % mr.counts["retry_path_derivations"])
